@@ -24,7 +24,9 @@ pub fn case_set(ctx: &mut Ctx, a: &[&str]) {
         if args[7] != "-" { c = c.with_secure(args[7] == "1"); }
         c = match args[8].as_str() { "strict" => c.with_same_site(SameSite::Strict), "lax" => c.with_same_site(SameSite::Lax), "none" => c.with_same_site(SameSite::None), _ => c };
         if args[9] != "-" { c = c.with_expires(UNIX_EPOCH + Duration::from_secs(args[9].parse().unwrap())); }
-        let r = Response::new(200).with_set_cookie(c.clone()).with_set_cookie(c);
+        // (the status code rotates with the case: a cookie is set on a 204 or 304 just as on a 200)
+        let code = [200u16, 204, 304, 201, 404, 302, 500][(args[0].len() + args[1].len() + args[4].len()) % 7];
+        let r = Response::new(code).with_set_cookie(c.clone()).with_set_cookie(c);
         // the fields as the client receives them: taken from the serialised response, not from the header list
         let mut w = crate::io_script::ScriptWriter::new(vec![], None, 0);
         let _ = crate::io_script::block_on(servlin::internal::write_http_response(&mut w, &r, false));
@@ -88,6 +90,25 @@ pub fn run(ctx: &mut Ctx) {
         if ctx.mine(idx) {
             emit(ctx, "c15r", 8192, &[], &head, "eof", &[], 0);
         }
+    }
+    // every Cookie value of up to 6 (7) symbols over {a = ; " SP}: quotes (balanced or not) never shield a ';'
+    let calpha: [u8; 5] = [b'a', b'=', b';', b'"', b' '];
+    let cmax = if ctx.thorough() { 7 } else { 6 };
+    let mut cur: Vec<usize> = vec![0];
+    loop {
+        let v: Vec<u8> = cur.iter().map(|&i| calpha[i]).collect();
+        idx += 1;
+        if ctx.mine(idx) && v.first() != Some(&b' ') && v.last() != Some(&b' ') {
+            let head = [&b"GET / HTTP/1.1\r\nCookie: "[..], &v, b"\r\n\r\n"].concat();
+            emit(ctx, "c15r", 8192, &[], &head, "eof", &[], 0);
+        }
+        let mut pos = cur.len();
+        loop {
+            if pos == 0 { cur = vec![0; cur.len() + 1]; break; }
+            pos -= 1;
+            if cur[pos] + 1 < calpha.len() { cur[pos] += 1; for c in cur.iter_mut().skip(pos + 1) { *c = 0; } break; }
+        }
+        if cur.len() > cmax { break; }
     }
     // response side: all attribute combinations x names x values x Max-Age
     let names: Vec<Vec<u8>> = vec![b"a".to_vec(), b"SID".to_vec(), TOKEN.to_vec(), b"__Host-x".to_vec()];
